@@ -389,3 +389,33 @@ def seed_selection(sc, real, mode=""):
         if key not in prim:
             out.append((f"query {key[0]}: seeds were refined although no primary correlation was dispatched", None, f"{mode}/seeds"))
     return out
+
+
+XMAP_NAMES = ["XmapEntryID", "QryContigID", "RefContigID", "QryStartPos", "QryEndPos", "RefStartPos", "RefEndPos", "Orientation",
+              "Confidence", "HitEnum", "QryLen", "RefLen", "AlignedRest", "LabelChannel", "Alignment"]
+
+
+def header_oracle(header, data):
+    """C07 / C18: a written XMAP file is well-formed — host and argument echo lines, a version line, the two source lines,
+    one `#h` line naming exactly the columns of the data lines (all the reader needs among them), one `#f` line of the
+    same width, nothing else; every data line has that many fields"""
+    if len(header) < 2 or not header[0].startswith("# hostname=") or not header[1].startswith("# coma "):
+        return "the first two header lines are not the host-name and argument echo"
+    rest = header[2:]
+    hs = [l for l in rest if l.startswith("#h")]
+    fs = [l for l in rest if l.startswith("#f")]
+    if len(hs) != 1 or len(fs) != 1:
+        return "not exactly one #h and one #f line"
+    if rest.index(fs[0]) != rest.index(hs[0]) + 1 or rest[-1] != fs[0]:
+        return "#h / #f are not the last two header lines, in that order"
+    names = hs[0].split("\t")[1:]
+    if names != XMAP_NAMES:
+        return f"column names {names} are not the XMAP columns"
+    if len(fs[0].split("\t")) != len(hs[0].split("\t")):
+        return "#f line and #h line differ in width"
+    if not any(l.startswith("# XMAP File Version:") for l in rest):
+        return "no XMAP version line"
+    for l in data:
+        if len(l.split("\t")) != len(names):
+            return f"a data line has {len(l.split(chr(9)))} fields, the header names {len(names)} columns"
+    return None
